@@ -1,7 +1,8 @@
 (* Executable model of the export pipeline of daemon/src/event/export.rs
    (process_nlri_change and everything it calls), of the inbound loop checks
-   (is_as_loop in export.rs, the ORIGINATOR_ID / CLUSTER_LIST test at the top of
-   PeerSession::rx_update in event/mod.rs) and of the AS_PATH edits of
+   (is_as_loop in export.rs, applied by the route extraction of PeerSession::rx_msg;
+   the ORIGINATOR_ID / CLUSTER_LIST test at the top of PeerSession::rx_update in
+   event/mod.rs) and of the AS_PATH edits of
    packet/src/bgp.rs (as_path_prepend, as_path_prepend_confed,
    as_path_strip_confed, as_path_count).  No proofs in this file.
 
@@ -109,14 +110,15 @@ Definition chunks4_contains (pat b : list N) : bool := chunks4_any (S (length b)
 (* ------------------------------------------------------------ AS_PATH edits (packet/src/bgp.rs) *)
 (* as_path_prepend (ty = 2) and as_path_prepend_confed (ty = 3) differ only in
    the segment type; u8 arithmetic buf[1] + 1 cannot overflow because of the
-   < 255 test. *)
+   < 255 test; since a62a64e / 0db415e the head test is guarded by len >= 2, so
+   no byte string makes them panic. *)
 Definition path_prepend_b (ty asn : N) (buf : list N) : res (list N) :=
   match buf with
   | [] => Ok ([ty; 1] ++ be32 asn)
   | b0 :: rest =>
     if b0 =? ty then
       match rest with
-      | [] => Panic                                (* buf[1]: index out of bounds *)
+      | [] => Ok ([ty; 1] ++ be32 asn ++ buf)      (* len >= 2 guard: a one-byte buffer is kept behind a new segment *)
       | b1 :: rest' =>
         if b1 <? 255 then Ok (b0 :: (b1 + 1) :: be32 asn ++ rest')
         else Ok ([ty; 1] ++ be32 asn ++ buf)
@@ -401,8 +403,8 @@ Definition rr_loop_drop (attrs : list attr) (local_rid : N) (cid : option N) : b
     end in
   originator_loop || cluster_loop.
 
-(* what the receive path does with one reach UPDATE (run_select: is_as_loop
-   => skipped; rx_update: RR loop => dropped; else the attributes handed to
+(* what the receive path does with one reach UPDATE (rx_msg: is_as_loop => the
+   routes are ignored, the message still reaches the FSM; rx_update: RR loop => dropped; else the attributes handed to
    insert_route, with LOCAL_PREF defaulted on iBGP sessions) *)
 Definition rx_reach (x : ectx) (local_rid : N) (cid : option N) (attrs : list attr)
   : res (option (list attr)) :=
@@ -638,31 +640,24 @@ Fixpoint insert_sorted (x : N) (l : list N) : list N :=
   match l with [] => [x] | y :: t => if x <=? y then x :: l else y :: insert_sorted x t end.
 Definition sort_n (l : list N) : list N := fold_right insert_sorted [] l.
 
-(* [fixed]: false = the code as found; true = after the repository commit
-   "fix: re-advertise LLGR-stale paths ..." (export.rs): a change with
-   any_changed whose best path is LLGR-stale is no longer skipped in the
-   best-only branch, and an LLGR-stale path is re-sent in the Add-Path branch
-   even if its id was already sent. *)
-Fixpoint addpath_reaches (fixed : bool) (x : ectx) (d : N) (replaced : option N) (e : emap)
+Fixpoint addpath_reaches (x : ectx) (d : N) (replaced : option N) (e : emap)
          (top : list (N * list attr * option nexthop * source)) : res (list sinkop * emap) :=
   match top with
   | [] => Ok ([], e)
   | (pid, a, nh, s) :: t =>
     let already := em_contains_path e d pid in
     let was_replaced := match replaced with Some r => r =? pid | None => false end in
-    if negb already || was_replaced || (fixed && src_llgr s) then
+    if negb already || was_replaced then
       rbind (export_attrs x a) (fun a' =>
-        rbind (addpath_reaches fixed x d replaced (em_mark_sent e d pid) t) (fun r =>
+        rbind (addpath_reaches x d replaced (em_mark_sent e d pid) t) (fun r =>
           Ok (Reach d pid nh a' s :: fst r, snd r)))
-    else addpath_reaches fixed x d replaced e t
+    else addpath_reaches x d replaced e t
   end.
 
-Definition process_change_v (fixed : bool) (x : ectx) (pol : policy_fn) (emax : N) (raddr : ipaddr)
+Definition process_change (x : ectx) (pol : policy_fn) (emax : N) (raddr : ipaddr)
            (cid : option N) (c : change) (e : emap) : res (list sinkop * emap) :=
   if emax =? 1 then
-    let llgr_refresh := fixed && c_any_changed c &&
-                        match c_paths c with best :: _ => src_llgr (p_src best) | [] => false end in
-    if negb (c_best_changed c) && negb llgr_refresh then Ok ([], e)
+    if negb (c_best_changed c) then Ok ([], e)
     else
       let vis := match c_paths c with
                  | [] => None
@@ -697,11 +692,8 @@ Definition process_change_v (fixed : bool) (x : ectx) (pol : policy_fn) (emax : 
       let cur := map (fun t => fst (fst (fst t))) top in
       let gone := sort_n (filter (fun pid => negb (mem pid cur)) sent) in
       let e1 := fold_left (fun e pid => em_mark_withdrawn e (c_dest c) pid) gone e in
-      rbind (addpath_reaches fixed x (c_dest c) (c_replaced c) e1 top) (fun r =>
+      rbind (addpath_reaches x (c_dest c) (c_replaced c) e1 top) (fun r =>
         Ok (map (fun pid => Unreach (c_dest c) pid) gone ++ fst r, snd r)).
-
-(* the code of the working tree *)
-Definition process_change := process_change_v true.
 
 (* the same with an export policy that can panic: the panic is the panic of the call *)
 Definition policy_stage_r (x : ectx) (polr : policy_fn_r) (cid : option N) (fam : N) (p : path)
@@ -730,12 +722,10 @@ Fixpoint top_n_r (x : ectx) (polr : policy_fn_r) (cid : option N) (fam : N) (can
             end)))
   end.
 
-Definition process_change_r (fixed : bool) (x : ectx) (polr : policy_fn_r) (emax : N) (raddr : ipaddr)
+Definition process_change_r (x : ectx) (polr : policy_fn_r) (emax : N) (raddr : ipaddr)
            (cid : option N) (c : change) (e : emap) : res (list sinkop * emap) :=
   if emax =? 1 then
-    let llgr_refresh := fixed && c_any_changed c &&
-                        match c_paths c with best :: _ => src_llgr (p_src best) | [] => false end in
-    if negb (c_best_changed c) && negb llgr_refresh then Ok ([], e)
+    if negb (c_best_changed c) then Ok ([], e)
     else
       let vis := match c_paths c with
                  | [] => None
@@ -764,7 +754,7 @@ Definition process_change_r (fixed : bool) (x : ectx) (polr : policy_fn_r) (emax
         let cur := map (fun t => fst (fst (fst t))) top in
         let gone := sort_n (filter (fun pid => negb (mem pid cur)) sent) in
         let e1 := fold_left (fun e pid => em_mark_withdrawn e (c_dest c) pid) gone e in
-        rbind (addpath_reaches fixed x (c_dest c) (c_replaced c) e1 top) (fun r =>
+        rbind (addpath_reaches x (c_dest c) (c_replaced c) e1 top) (fun r =>
           Ok (map (fun pid => Unreach (c_dest c) pid) gone ++ fst r, snd r))).
 
 (* the session loop: every NlriChange delivered to a neighbour's task goes through
@@ -782,32 +772,87 @@ Fixpoint run_changes (x : ectx) (pol : policy_fn) (emax : N) (raddr : ipaddr) (c
   end.
 
 (* ------------------------------------------------------------ the LLGR period begins
-   One destination holding one unfiltered path learned from peer [ps]:
-   Table::insert reports (best_changed, any_changed) = (true, true);
-   Table::restale_llgr(addr) sets the shared llgr_stale flag of the source and,
-   the best path id being unchanged, reports best_changed = false,
-   any_changed = true, replaced_path_id = None with the same path list
-   (table/src/lib.rs restale_llgr).  Both changes are exported to the same
-   neighbour. *)
+   Table::restale_llgr(addr, family) (table/src/lib.rs, since 03ea310), for one
+   destination that holds a path of the peer: the shared llgr_stale flag of the
+   peer's source is set, the entries are re-sorted, and the change stream below
+   is reported.  Inputs: the best path id before marking, whether any not
+   filtered entry is from the peer, and the eligible (not filtered, next hop
+   valid) paths in their new order, flags already set.  Every eligible path of
+   the peer is named as replaced in a change of its own (all carry the same
+   list); best_changed goes with the first, and holds when the best moved or
+   the best is one of the marked paths.  The Rib side (sorting, what is
+   eligible) is property C02/C06; here only the shape of the stream matters. *)
+Definition opt_n_eqb (a b : option N) : bool :=
+  match a, b with
+  | None, None => true
+  | Some x, Some y => x =? y
+  | _, _ => false
+  end.
+
+Fixpoint marked_changes (fam dest : N) (best_changed : bool) (paths : list path) (marked : list N)
+  : list change :=
+  match marked with
+  | [] => []
+  | pid :: t =>
+    {| c_family := fam; c_dest := dest; c_best_changed := best_changed; c_any_changed := true;
+       c_replaced := Some pid; c_paths := paths |} :: marked_changes fam dest false paths t
+  end.
+
+Definition restale_llgr_changes (fam dest : N) (old_best : option N) (any_from_addr : bool)
+           (addr : ipaddr) (paths : list path) : list change :=
+  let marked := map p_lpid (filter (fun p => ip_eqb (src_raddr (p_src p)) addr) paths) in
+  let new_best := match paths with p :: _ => Some (p_lpid p) | [] => None end in
+  let best_marked := match new_best, marked with
+                     | Some b, m :: _ => m =? b
+                     | _, _ => false
+                     end in
+  let best_changed := negb (opt_n_eqb old_best new_best) || best_marked in
+  if best_changed || any_from_addr then
+    match marked with
+    | [] => [ {| c_family := fam; c_dest := dest; c_best_changed := best_changed;
+                 c_any_changed := any_from_addr; c_replaced := None; c_paths := paths |} ]
+    | _ => marked_changes fam dest best_changed paths marked
+    end
+  else [].
+
+(* the stream before 03ea310: one change, best_changed only when the best moved, no
+   path named as replaced (kept to state what the defect was) *)
+Definition restale_llgr_changes_old (fam dest : N) (old_best : option N) (any_from_addr : bool)
+           (paths : list path) : list change :=
+  let new_best := match paths with p :: _ => Some (p_lpid p) | [] => None end in
+  let best_changed := negb (opt_n_eqb old_best new_best) in
+  if best_changed || any_from_addr then
+    [ {| c_family := fam; c_dest := dest; c_best_changed := best_changed;
+         c_any_changed := any_from_addr; c_replaced := None; c_paths := paths |} ]
+  else [].
+
+(* One destination holding one path learned from peer [ps]: Table::insert reports
+   (best_changed, any_changed) = (true, true); then restale_llgr's stream is exported
+   to the same neighbour. *)
 Definition set_llgr (ps : peer_src) (b : bool) : peer_src :=
   {| ps_raddr := ps_raddr ps; ps_rasn := ps_rasn ps; ps_lasn := ps_lasn ps; ps_rid := ps_rid ps;
      ps_role := ps_role ps; ps_llgr := b |}.
 
 Definition IPV4_UNICAST : N := 65537.
 
+Definition llgr_path (ps : peer_src) (stale : bool) (nh : option nexthop) (attrs : list attr) : path :=
+  {| p_lpid := 1; p_src := SrcPeer (set_llgr ps stale); p_nh := nh; p_attrs := attrs |}.
+
 Definition llgr_change1 (ps : peer_src) (nh : option nexthop) (attrs : list attr) : change :=
   {| c_family := IPV4_UNICAST; c_dest := 1; c_best_changed := true; c_any_changed := true; c_replaced := None;
-     c_paths := [ {| p_lpid := 1; p_src := SrcPeer (set_llgr ps false); p_nh := nh; p_attrs := attrs |} ] |}.
-Definition llgr_change2 (ps : peer_src) (nh : option nexthop) (attrs : list attr) : change :=
-  {| c_family := IPV4_UNICAST; c_dest := 1; c_best_changed := false; c_any_changed := true; c_replaced := None;
-     c_paths := [ {| p_lpid := 1; p_src := SrcPeer (set_llgr ps true); p_nh := nh; p_attrs := attrs |} ] |}.
+     c_paths := [llgr_path ps false nh attrs] |}.
 
-Definition llgr_scenario_v (fixed : bool) (x : ectx) (pol : policy_fn) (emax : N) (raddr : ipaddr)
+Definition llgr_stream (new_stream : bool) (ps : peer_src) (nh : option nexthop) (attrs : list attr) : list change :=
+  if new_stream
+  then restale_llgr_changes IPV4_UNICAST 1 (Some 1) true (ps_raddr ps) [llgr_path ps true nh attrs]
+  else restale_llgr_changes_old IPV4_UNICAST 1 (Some 1) true [llgr_path ps true nh attrs].
+
+Definition llgr_scenario_v (new_stream : bool) (x : ectx) (pol : policy_fn) (emax : N) (raddr : ipaddr)
            (cid : option N) (ps : peer_src) (nh : option nexthop) (attrs : list attr)
   : res (list sinkop * list sinkop * emap) :=
   let e0 := if emax =? 1 then ENone else EAddPath [] in
-  rbind (process_change_v fixed x pol emax raddr cid (llgr_change1 ps nh attrs) e0) (fun r1 =>
-    rbind (process_change_v fixed x pol emax raddr cid (llgr_change2 ps nh attrs) (snd r1)) (fun r2 =>
+  rbind (process_change x pol emax raddr cid (llgr_change1 ps nh attrs) e0) (fun r1 =>
+    rbind (run_changes x pol emax raddr cid (llgr_stream new_stream ps nh attrs) (snd r1)) (fun r2 =>
       Ok (fst r1, fst r2, snd r2))).
 Definition llgr_scenario := llgr_scenario_v true.
 
@@ -866,7 +911,8 @@ Inductive case :=
               (st : stmt) (pre : option prepend_action) (default : disp) (* 12: with a real export policy *)
 | CHistory (x : ectx) (emax : N) (raddr : ipaddr) (cid : option N) (cs : list change) (probe : list N) (* 13 *)
 | CProcessRtc (x : ectx) (emax : N) (raddr : ipaddr) (cid : option N) (c : change) (e : emap) (probe : list N)
-              (accept_all : bool) (rts : list (list N)).                (* 14: with an RtcFilter *)
+              (accept_all : bool) (rts : list (list N))                 (* 14: with an RtcFilter *)
+| CRestale (old_best : option N) (any_from_addr : bool) (addr : ipaddr) (paths : list path). (* 15: restale_llgr's stream *)
 
 Definition run_case (c : case) : val :=
   match c with
@@ -891,11 +937,15 @@ Definition run_case (c : case) : val :=
           (llgr_scenario x no_policy emax raddr cid ps nh attrs)
   | CProcessPol x emax raddr cid ch e probe st pre default =>
     v_res (fun r => VL [VList v_sinkop (fst r); v_emap (snd r) probe])
-          (process_change_r true x (stmt_policy_r x raddr st pre default) emax raddr cid ch e)
+          (process_change_r x (stmt_policy_r x raddr st pre default) emax raddr cid ch e)
   | CHistory x emax raddr cid cs probe =>
     v_res (fun r => VL [VList v_sinkop (fst r); v_emap (snd r) probe])
           (run_changes x no_policy emax raddr cid cs (if emax =? 1 then ENone else EAddPath []))
   | CProcessRtc x emax raddr cid ch e probe acc rts =>
     v_res (fun r => VL [VList v_sinkop (fst r); v_emap (snd r) probe])
-          (process_change_r true x (with_rtc (rtc_allows acc rts) (lift_policy no_policy)) emax raddr cid ch e)
+          (process_change_r x (with_rtc (rtc_allows acc rts) (lift_policy no_policy)) emax raddr cid ch e)
+  | CRestale old any addr paths =>
+    VList (fun c => VL [VB (c_best_changed c); VB (c_any_changed c); VOpt VN (c_replaced c);
+                        VNs (map p_lpid (c_paths c))])
+          (restale_llgr_changes IPV4_UNICAST 1 old any addr paths)
   end.
